@@ -67,6 +67,10 @@ CLAIMED = {
    text="Interleavings are not explored; decided are the structural conditions under which they cannot matter: (1) MOD summaries: no lint method, Lint*Ex entry point or registry read API function (Names, Sources, ByName, BySource, Lints, WriteJSON, DefaultConfiguration, Filter, MaybeConfigure …) writes module-level state, the linted object, the registry/lookup it is called on or the shared configuration tree (sync-typed fields excepted; Filter writes only the registry it allocates); per-call lint instances; (2) every call site of the registration API, register* and SetConfiguration is in an init function, the registration API itself, NewRegistry/Filter on the not-yet-escaped registry, or the CLI's start-up; (3) every lock taken in lint/util/framework code is paired with an immediately deferred unlock and no lint method is invoked under a registry lock. The RLock-as-writer in register is reported as an observation: under (2) it cannot race with readers.",
    note=TRUST+"Distinct parsed objects per goroutine (the property's own premise). Library internals assumed race-free for read-only use.",
    technique="effect (MOD) analysis over go/ssa + VTA call graph; who-may-call census; lock-pairing rule on SSA", ref="§3 C10"),
+ "C09": dict(level="other",
+   text="Access policy decided over the SSA of all lint, util and framework functions: Certificate.Signature is loaded only where the sole use is len(); SelfSigned is read only by util.IsSelfSigned (returned unchanged) and, in zcrypto's source as loaded, is only ever set to true under bytes.Equal(RawSubject, RawIssuer); fingerprints, ValidationLevel, verification/JSON methods and the certificate as an interface value are not used; Raw flows only into len(), asn1.Unmarshal (target never read at its third component or RawContent, never escaping) or a cryptobyte.String from which only the outer SEQUENCE and at most its first two elements are read. A structural necessary condition: it does not decide that decoding succeeds independently of the signature bits, nor dependence through other zcrypto-derived fields.",
+   note=TRUST+"zcrypto computes all other exported Certificate fields from the TBS part; ASN.1 Certificate ::= SEQUENCE {tbs, algorithm, signature}.",
+   technique="def-use / access-policy analysis over go/ssa (who may read which member, where the value may flow)", ref="§3 C09"),
 }
 
 NOT_YET = "check not built yet in this session (see DESIGN.md §3 for the planned static rule)"
